@@ -143,6 +143,187 @@ theorem C16_add_invariant (dg : Str → Str → Except Err Str) (tbl : Table) (r
       · simp [ha] at h
       · simp [ha, hn]
 
+/-! ### the hash object modelled: no streaming hypothesis left
+
+`Model/HashMD.lean`: a hash object = (chaining value, pending bytes shorter than a block, total length); `update`
+buffers and compresses every complete block; `digest` pads and finalises.  `Proofs/HashMD.lean` proves the streaming
+and the unit law for EVERY block size > 0 and EVERY compression/finalisation function – so the theorems below hold
+for md5, sha1, the sha2 family (given as executable instances and compared with `hashlib` on every run) and for any
+other algorithm of this shape (sha3 absorption, sm3, ripemd160, …: compression function left abstract). -/
+
+/-- **the streaming law, proved**: for any block-buffered hash, feeding `a` then `b` is feeding `a ++ b`, feeding
+nothing changes nothing, and feeding any list of chunks is feeding their concatenation -/
+theorem C16_streaming_md {S : Type} (A : HashMD.Alg S) (hbs : 0 < A.blockSize) :
+    (∀ h a b, HashMD.update A (HashMD.update A h a) b = HashMD.update A h (a ++ b))
+    ∧ (∀ h, h.WF A → HashMD.update A h [] = h)
+    ∧ (HashMD.init A).WF A ∧ (∀ h a, (HashMD.update A h a).WF A)
+    ∧ (∀ chunks : List Bytes, HashMD.digest A (chunks.foldl (HashMD.update A) (HashMD.init A))
+        = HashMD.hashBytes A chunks.flatten) :=
+  ⟨HashMD.update_update A hbs, HashMD.update_nil A, HashMD.init_wf A hbs, HashMD.update_wf A hbs,
+   HashMD.digest_foldl_update A hbs⟩
+
+/-- for ANY block-buffered hash, ANY content and ANY chunk size > 0 the library's read-until-empty loop returns the
+(lower-cased) one-shot digest – NO hypothesis about the hash -/
+theorem C16_chunked_md {S : Type} (A : HashMD.Alg S) (hbs : 0 < A.blockSize) (n : Nat) (hn : 0 < n) (content : Bytes) :
+    chunkedMD A n content = Str.lowerAscii (HashMD.hashBytes A content) := by
+  unfold chunkedMD chunkedDigest
+  rw [readLoop_state_inv (HashMD.update A) (fun h => h.WF A) (HashMD.update_wf A hbs) (HashMD.update_update A hbs)
+    (HashMD.update_nil A) n hn (content.length + 1) (HashMD.init A) content (HashMD.init_wf A hbs) (by omega)]
+  rfl
+
+/-- …and so does a caller who cuts the content into chunks of ARBITRARY sizes (empty chunks included) -/
+theorem C16_any_chunking_md {S : Type} (A : HashMD.Alg S) (hbs : 0 < A.blockSize) (sizes : List Nat) (content : Bytes) :
+    fedInChunks A sizes content = Str.lowerAscii (HashMD.hashBytes A content) := by
+  unfold fedInChunks hexdigestLower
+  rw [HashMD.digest_foldl_update A hbs, cutChunks_flatten]
+
+/-- `compute_checksum` as written, over any block-buffered hash: the digest of the full content, whatever the size -/
+theorem C16_compute_md {S : Type} (A : HashMD.Alg S) (hbs : 0 < A.blockSize) (content : Bytes) :
+    computeMD A content = Str.lowerAscii (HashMD.hashBytes A content) := by
+  unfold computeMD compute
+  rw [if_pos C16_here.1]
+  exact C16_chunked_md A hbs _ C16_here.2 content
+
+/-- the one-shot digest is what the algorithm's definition says: every complete block of the content compressed
+in order, the remaining `length mod blockSize` bytes and the total length given to the finaliser -/
+theorem C16_oneshot_md {S : Type} (A : HashMD.Alg S) (hbs : 0 < A.blockSize) (content : Bytes) :
+    HashMD.hashBytes A content = A.finish (HashMD.absorbAll A.blockSize A.compress A.iv content).1
+        (HashMD.absorbAll A.blockSize A.compress A.iv content).2 content.length
+    ∧ (HashMD.absorbAll A.blockSize A.compress A.iv content).2.length = content.length % A.blockSize :=
+  ⟨HashMD.hashBytes_eq A content, HashMD.absorbAll_pending A.blockSize hbs A.compress content.length A.iv content (Nat.le_refl _)⟩
+
+/-- the modelled algorithms print lower-case hex: the code's `.lower()` changes nothing -/
+theorem C16_lower_noop (b : Bytes) : Str.lowerAscii (HashMD.hexOfBytes b) = HashMD.hexOfBytes b := lowerAscii_hexOfBytes b
+
+/-- md5 (RFC 1321, executable, compared with hashlib on every run): chunk loop of any chunk size = one-shot md5 -/
+theorem C16_chunked_md5 (n : Nat) (hn : 0 < n) (content : Bytes) :
+    chunkedMD HashMD.md5 n content = HashMD.hashBytes HashMD.md5 content := by
+  rw [C16_chunked_md HashMD.md5 (by decide) n hn content]; exact lowerAscii_hexOfBytes _
+
+theorem C16_chunked_sha1 (n : Nat) (hn : 0 < n) (content : Bytes) :
+    chunkedMD HashMD.sha1 n content = HashMD.hashBytes HashMD.sha1 content := by
+  rw [C16_chunked_md HashMD.sha1 (by decide) n hn content]; exact lowerAscii_hexOfBytes _
+
+theorem C16_chunked_sha256 (n : Nat) (hn : 0 < n) (content : Bytes) :
+    chunkedMD HashMD.sha256 n content = HashMD.hashBytes HashMD.sha256 content := by
+  rw [C16_chunked_md HashMD.sha256 (by decide) n hn content]; exact lowerAscii_hexOfBytes _
+
+theorem C16_chunked_sha224 (n : Nat) (hn : 0 < n) (content : Bytes) :
+    chunkedMD HashMD.sha224 n content = HashMD.hashBytes HashMD.sha224 content := by
+  rw [C16_chunked_md HashMD.sha224 (by decide) n hn content]; exact lowerAscii_hexOfBytes _
+
+theorem C16_chunked_sha384 (n : Nat) (hn : 0 < n) (content : Bytes) :
+    chunkedMD HashMD.sha384 n content = HashMD.hashBytes HashMD.sha384 content := by
+  rw [C16_chunked_md HashMD.sha384 (by decide) n hn content]; exact lowerAscii_hexOfBytes _
+
+theorem C16_chunked_sha512 (n : Nat) (hn : 0 < n) (content : Bytes) :
+    chunkedMD HashMD.sha512 n content = HashMD.hashBytes HashMD.sha512 content := by
+  rw [C16_chunked_md HashMD.sha512 (by decide) n hn content]; exact lowerAscii_hexOfBytes _
+
+/-- by NAME, as `compute_checksum(path, name)` is called: for every modelled name (any letter case) the code's
+loop with the code's chunk size returns that algorithm's one-shot digest of the whole content -/
+theorem C16_compute_by_name (name : Str) (content : Bytes) (d : Str) (h : computeByName name content = some d) :
+    withAlg name (fun A => HashMD.hashBytes A content) = some d := by
+  unfold computeByName withAlg at h
+  unfold withAlg
+  have e : ∀ {S : Type} (A : HashMD.Alg S) (hbs : 0 < A.blockSize)
+      (hout : ∀ st, Str.lowerAscii (HashMD.digest A st) = HashMD.digest A st),
+      computeMD A content = HashMD.hashBytes A content := by
+    intro S A hbs hout
+    rw [C16_compute_md A hbs content]; exact hout _
+  simp only [] at h ⊢
+  split at h
+  · rw [if_pos ‹_›, ← e HashMD.md5 (by decide) (fun _ => lowerAscii_hexOfBytes _)]; exact h
+  · rw [if_neg ‹_›]; split at h
+    · rw [if_pos ‹_›, ← e HashMD.sha1 (by decide) (fun _ => lowerAscii_hexOfBytes _)]; exact h
+    · rw [if_neg ‹_›]; split at h
+      · rw [if_pos ‹_›, ← e HashMD.sha224 (by decide) (fun _ => lowerAscii_hexOfBytes _)]; exact h
+      · rw [if_neg ‹_›]; split at h
+        · rw [if_pos ‹_›, ← e HashMD.sha256 (by decide) (fun _ => lowerAscii_hexOfBytes _)]; exact h
+        · rw [if_neg ‹_›]; split at h
+          · rw [if_pos ‹_›, ← e HashMD.sha384 (by decide) (fun _ => lowerAscii_hexOfBytes _)]; exact h
+          · rw [if_neg ‹_›]; split at h
+            · rw [if_pos ‹_›, ← e HashMD.sha512 (by decide) (fun _ => lowerAscii_hexOfBytes _)]; exact h
+            · cases h
+
+/-- the first sentence of the property with the hash MODELLED: `add(path, type)` without a value records, under the
+normalised relative path, the one-shot digest (of the block-buffered hash `A` that `hashlib.new(type)` denotes) of
+the FULL content of `root/normpath(path)` – no law hypotheses -/
+theorem C16_add_computes_md {S : Type} (A : HashMD.Alg S) (hbs : 0 < A.blockSize)
+    (files : Str → Option Bytes) (tbl : Table) (rel ct root : Str)
+    (hrel : Str.startsWith rel ['/'] = false)
+    (hok : (add (fun p _ => match files p with
+                   | some c => .ok (computeMD A c)
+                   | none => .error .other) tbl rel ct none (some root)).2 = .ok ()) :
+    ∃ content, files (pathJoin root (normpath rel)) = some content
+      ∧ (add (fun p _ => match files p with
+                   | some c => .ok (computeMD A c)
+                   | none => .error .other) tbl rel ct none (some root)).1
+          = tbl.set (normpath rel) (ct, Str.lowerAscii (HashMD.hashBytes A content)) := by
+  obtain ⟨d, hd, _, _, hcomp⟩ := C16_add _ tbl rel ct none (some root) hrel hok
+  obtain ⟨r, hr, hdig⟩ := hcomp (by simp [valTruthy])
+  have : r = root := by simpa using hr.symm
+  subst this
+  cases hf : files (pathJoin r (normpath rel)) with
+  | none => simp [hf] at hdig
+  | some content =>
+    simp only [hf, Except.ok.injEq] at hdig
+    refine ⟨content, rfl, ?_⟩
+    rw [hd, ← hdig, C16_compute_md A hbs content]
+
+/-- …and by NAME: `add(path, "sha256")` (any modelled name, any letter case) without a value records, under the
+normalised relative path, THAT algorithm's one-shot digest of the full content of `root/normpath(path)` -/
+theorem C16_add_computes_by_name (files : Str → Option Bytes) (tbl : Table) (rel ct root : Str)
+    (hrel : Str.startsWith rel ['/'] = false)
+    (hok : (add (digestByName files) tbl rel ct none (some root)).2 = .ok ()) :
+    ∃ content d, files (pathJoin root (normpath rel)) = some content
+      ∧ withAlg ct (fun A => HashMD.hashBytes A content) = some d
+      ∧ (add (digestByName files) tbl rel ct none (some root)).1 = tbl.set (normpath rel) (ct, d) := by
+  obtain ⟨d, hd, _, _, hcomp⟩ := C16_add _ tbl rel ct none (some root) hrel hok
+  obtain ⟨r, hr, hdig⟩ := hcomp (by simp [valTruthy])
+  have : r = root := by simpa using hr.symm
+  subst this
+  unfold digestByName at hdig
+  cases hf : files (pathJoin r (normpath rel)) with
+  | none => simp [hf] at hdig
+  | some content =>
+    simp only [hf] at hdig
+    cases hc : computeByName ct content with
+    | none => simp [hc] at hdig
+    | some d' =>
+      simp only [hc, Except.ok.injEq] at hdig
+      subst hdig
+      exact ⟨content, d', rfl, C16_compute_by_name ct content d' hc, hd⟩
+
+/-- the Merkle–Damgård finaliser is well formed for EVERY pending buffer and length: pending ++ 0x80 ++ zeros ++ length
+is a whole number of blocks – the smallest that fits –, starts with the pending bytes, and is compressed completely
+(nothing is left over), whatever the compression function -/
+theorem C16_md_padding (bs lb : Nat) (hbs : 0 < bs) (be : Bool) (pending : Bytes) (total : Nat) :
+    (HashMD.mdPad bs lb be pending total).length % bs = 0
+    ∧ pending.length + 1 + lb ≤ (HashMD.mdPad bs lb be pending total).length
+    ∧ (HashMD.mdPad bs lb be pending total).length < pending.length + 1 + lb + bs
+    ∧ pending ++ [0x80] <+: HashMD.mdPad bs lb be pending total
+    ∧ (∀ {S : Type} (f : S → Bytes → S) (cv : S), (HashMD.absorbAll bs f cv (HashMD.mdPad bs lb be pending total)).2 = []) :=
+  ⟨(HashMD.mdPad_blocks bs lb hbs be pending total).1, (HashMD.mdPad_blocks bs lb hbs be pending total).2.1,
+   (HashMD.mdPad_blocks bs lb hbs be pending total).2.2, HashMD.mdPad_prefix bs lb be pending total,
+   fun f cv => HashMD.mdFinish_consumes bs lb hbs be f cv pending total⟩
+
+/-- test vectors checked by the kernel (RFC 1321 A.5, FIPS 180-4 examples): the empty string and "abc" -/
+theorem C16_test_vectors :
+    HashMD.hashBytes HashMD.md5 [] = "d41d8cd98f00b204e9800998ecf8427e".toList
+    ∧ HashMD.hashBytes HashMD.md5 [0x61, 0x62, 0x63] = "900150983cd24fb0d6963f7d28e17f72".toList
+    ∧ HashMD.hashBytes HashMD.sha1 [] = "da39a3ee5e6b4b0d3255bfef95601890afd80709".toList
+    ∧ HashMD.hashBytes HashMD.sha1 [0x61, 0x62, 0x63] = "a9993e364706816aba3e25717850c26c9cd0d89d".toList
+    ∧ HashMD.hashBytes HashMD.sha256 [] = "e3b0c44298fc1c149afbf4c8996fb92427ae41e4649b934ca495991b7852b855".toList
+    ∧ HashMD.hashBytes HashMD.sha256 [0x61, 0x62, 0x63]
+        = "ba7816bf8f01cfea414140de5dae2223b00361a396177a9cb410ff61f20015ad".toList
+    ∧ HashMD.hashBytes HashMD.sha224 [0x61, 0x62, 0x63] = "23097d223405d8228642a477bda255b32aadbce4bda0b3f7e36c9da7".toList
+    ∧ HashMD.hashBytes HashMD.sha384 [0x61, 0x62, 0x63]
+        = "cb00753f45a35e8bb5a03d699ac65007272c32ab0eded1631a8b605a43ff5bed8086072ba1e7cc2358baeca134c825a7".toList
+    ∧ HashMD.hashBytes HashMD.sha512 [0x61, 0x62, 0x63]
+        = "ddaf35a193617abacc417349ae20413112e6fa4e89a97ea20a9eeee64b55d39a2192992a274fc1a836ba3c23a3feebbd454d4423643ce80e2a9ac94fa54ca49f".toList := by
+  decide +kernel
+
 /-! ### reading a `[checksums]` section: every path gets exactly its own entry -/
 
 /-- value of the last entry for `p` (what a dict built by successive assignments holds) -/
@@ -419,6 +600,20 @@ example : deserialize false [("a".toList, "sha256:00".toList), ("b".toList, List
 example : (addChecksums [] [("md5".toList, some "a".toList), ("md5".toList, some "b".toList), ("md5".toList, none)]).lookup "md5".toList
     = some (some "a".toList) := by decide
 example : readTrace true 4 9 = [4, 4, 1, 0] := by decide
+/-- the chunk loop over a real algorithm, run by the kernel: 150 bytes (two md5 blocks and a rest) read 7 at a time -/
+example : chunkedMD HashMD.md5 7 (List.replicate 150 0x61) = HashMD.hashBytes HashMD.md5 (List.replicate 150 0x61) := by decide +kernel
+example : computeByName "SHA256".toList [0x61, 0x62, 0x63]
+    = some "ba7816bf8f01cfea414140de5dae2223b00361a396177a9cb410ff61f20015ad".toList := by decide +kernel
+example : computeByName "sha3_256".toList [] = none := by decide
+example : (add (digestByName fun p => if p = "R/a/Z.img".toList then some [0x61, 0x62, 0x63] else none) [] "./a//x/../Z.img".toList
+    "md5".toList none (some "R".toList)).1 = [("a/Z.img".toList, ("md5".toList, "900150983cd24fb0d6963f7d28e17f72".toList))] := by decide +kernel
+/-- the hypotheses of the generic theorems hold of a sponge-shaped instance too (rate 136 = sha3-256's) -/
+example : 0 < (⟨136, (), fun _ _ => (), fun _ _ _ => []⟩ : HashMD.Alg Unit).blockSize := by decide
+/-- padding: 55 bytes still fit one block with the length, 56 need a second block -/
+example : (HashMD.mdPad 64 8 true (List.replicate 55 0) 55).length = 64
+    ∧ (HashMD.mdPad 64 8 true (List.replicate 56 0) 56).length = 128
+    ∧ (HashMD.mdPad 128 16 true (List.replicate 111 0) 111).length = 128
+    ∧ (HashMD.mdPad 128 16 true (List.replicate 112 0) 112).length = 256 := by decide +kernel
 /-- keys are exact spellings: `SHA256` and `sha256` are two independent types (what the code does; `C16_image_monotone`
 is about the exact key), and a second value under the SAME spelling is refused -/
 example : addChecksums [] [("sha256".toList, some "a".toList), ("SHA256".toList, some "b".toList)]
